@@ -9,7 +9,7 @@ from .. import core
 
 SYM = {"N": "N½", "S": "S½", "E": "E½", "W": "W½",
        "NE": "NE¼", "NW": "NW¼", "SE": "SE¼", "SW": "SW¼", "ALL": "ALL"}
-CHANNELS = ("config", "kw", "attr", "plss", "mixed", "mixed_plss", "function")     # mixed: one depth setting configured, the related one by keyword
+CHANNELS = ("config", "kw", "attr", "plss", "mixed", "mixed_plss", "function", "bulk", "bulk_plss")     # mixed: one depth setting configured, the related one by keyword
 COMPS = ("N", "S", "E", "W", "NE", "NW", "SE", "SW")
 
 
@@ -124,7 +124,7 @@ def run(ctx):
     ctx.rule = ("cases = every (chain, qq_depth_min, qq_depth_max, break_halves) terminal state of "
                 "spec/Aliquot.tla with chains up to MaxLen=%d (exhaustive) plus seeded random chains of "
                 "length %d..7; settings passed through config text / parse kwargs / attributes / a parent "
-                "PLSSDesc / parse_aliquot() itself, each returned list modified by the caller afterwards; non-trivial = distinct input with >= 2 components or a non-default depth/break_halves "
+                "PLSSDesc / the container's parse_tracts() / parse_aliquot() itself, each returned list modified by the caller afterwards; non-trivial = distinct input with >= 2 components or a non-default depth/break_halves "
                 "setting" % (maxlen, maxlen + 1))
     ctx.assumptions += [
         "rendering table SYM (N -> 'N½' ...) and the label tokenizer in harness/impl.py are trusted",
